@@ -460,6 +460,14 @@ LawObjHistory(ss, ops, st) ==
                                        /\ new.len = st[op.a[1]].len + st[op.a[2]].len
         /\ \A k \in 0..Len(ops) : RunPStore(init, SubSeq(ops, 1, k)) = SubSeq(st, 1, n + k)
 
+(* L7b: filtering a SUM (+ / combine / MultiSweep, nested at will) by the keys of one of its leaves.  What a sum yields   *)
+(* for the combinations of the OTHER leaves (which lack those keys) is not stated; what is stated is that the projections  *)
+(* which exist are yielded: every distinct projection of that leaf occurs in the filtered sum, whatever the nesting.       *)
+FilterNeed(s) == IF ErrorOf(s) = "" /\ s.consts = <<>> /\ s.excl = <<>> /\ KeySet(s.items) # {}
+                 THEN [keys |-> AllKeys(s), proj |-> Filtered(s, AllKeys(s))] ELSE [keys |-> {}, proj |-> <<>>]
+LawFilteredSumCoversLeaf(s) == LET n == FilterNeed(s) C == CombosOf(s) IN
+    n.keys # {} => Range(n.proj) = {Project(C[i], n.keys) : i \in DOMAIN C}
+
 (* L7: filtered = the distinct projections, each once *)
 LawFiltered(s, keys) ==
     (ErrorOf(s) = "" /\ keys \subseteq AllKeys(s)) =>
